@@ -252,6 +252,7 @@ func cmdCheck(args []string) int {
 	}
 	if *writeBaseline {
 		p.writeParamBaseline(*verif)
+		p.writeCalleeBaseline(*verif)
 		os.MkdirAll(filepath.Join(*verif, "baseline"), 0o755)
 		old := loadBaseline(filepath.Join(*verif, "baseline", "obligations.json"))
 		for k, v := range newBaseline {
